@@ -342,8 +342,84 @@ def _sets_attr(st: ast.AST, obj: str, attr: str) -> bool:
     return False
 
 
+FIXTURE_ZERO_ALIGN = "def _read(cls, stream):\n    if cls.__align__:\n        stream.seek(-stream.tell() & (cls.alignment - 1), io.SEEK_CUR)\n"
+
+
+def _unguarded_class_alignment_seeks(fn: ast.AST) -> list[ast.Call]:
+    """stream.seek(-X & (cls.alignment - 1), SEEK_CUR) not guarded by the truthiness of cls.alignment: a structure without fields has alignment 0,
+    for which the mask is -1 and the 'padding' is -tell()."""
+    pm = parent_map(fn)
+    out = []
+    for c in ast.walk(fn):
+        if not (isinstance(c, ast.Call) and call_name(c) == "seek" and len(c.args) >= 2 and isinstance(c.args[0], ast.BinOp) and isinstance(c.args[0].op, ast.BitAnd)):
+            continue
+        mask = norm(c.args[0])
+        if ".alignment - 1" not in mask or "field.alignment" in mask or "or 1" in mask:
+            continue
+        owner = next((norm(a.value) for a in ast.walk(c.args[0]) if isinstance(a, ast.Attribute) and a.attr == "alignment"), None)
+        guarded = False
+        p_ = pm.get(c)
+        while p_ is not None:
+            if isinstance(p_, ast.If):
+                conj = p_.test.values if isinstance(p_.test, ast.BoolOp) and isinstance(p_.test.op, ast.And) else [p_.test]
+                if any(norm(x) in (f"{owner}.alignment", f"{owner}.alignment > 0", f"{owner}.alignment != 0", f"{owner}.__fields__", f"{owner}.fields") for x in conj):
+                    guarded = True
+            p_ = pm.get(p_)
+        if not guarded:
+            out.append(c)
+    return out
+
+
+def zero_alignment_rule(repo: Repo, rep: Report, rid: str) -> None:
+    rep.rule(rid, "a reader never moves the stream by a mask built from an alignment that can be 0: the class alignment of a structure without fields "
+                  "is 0 (the calculators start from 0 and take the maximum over the fields), so 'seek(-tell() & (cls.alignment - 1), SEEK_CUR)' must be "
+                  "guarded by the alignment (or the field list) being non-empty - in the interpreted reader and in the generated one")
+    if len(_unguarded_class_alignment_seeks(ast.parse(FIXTURE_ZERO_ALIGN))) != 1:
+        raise AnalysisError("zero-alignment matcher no longer recognises its positive fixture")
+    rep.ok(rid, "fixture:seek(-tell() & (cls.alignment - 1)) under 'if cls.__align__'", "matcher recognises the positive fixture", "", nontrivial=False)
+    n = 0
+    for fi in repo.all_functions():
+        if not fi.module.rel.startswith("types/"):
+            continue
+        sites = [c for c in walk_body(fi.node.body) if isinstance(c, ast.Call) and call_name(c) == "seek" and len(c.args) >= 2 and ".alignment - 1" in norm(c.args[0])
+                 and "field.alignment" not in norm(c.args[0])]
+        if not sites:
+            continue
+        bad = _unguarded_class_alignment_seeks(fi.node)
+        for c in sites:
+            n += 1
+            rep.check(not any(c is b_ for b_ in bad), rid, f"{fi.key}:{short(c, 60)}", "guarded by a non-empty alignment",
+                      f"{fi.qualname}: '{short(c, 70)}' is reached for a structure without fields, whose alignment is 0: the mask is -1 and the stream is moved "
+                      "back by tell() bytes (an empty aligned structure parsed at position p leaves the stream at 0)", fi.loc(c))
+    # the generated reader: the same statement as template text
+    gen = repo.func("compiler.py", "_ReadSourceGenerator._generate_fields")
+    pm = parent_map(gen.node)
+    for x in walk_body(gen.node.body):
+        if isinstance(x, (ast.JoinedStr, ast.Constant)) and not isinstance(pm.get(x), (ast.JoinedStr, ast.FormattedValue)):
+            text = "".join(str(v.value) for v in x.values if isinstance(v, ast.Constant)) if isinstance(x, ast.JoinedStr) else (x.value if isinstance(x.value, str) else "")
+            if "cls.alignment - 1" in text and "seek" in text:
+                n += 1
+                guarded = "or 1" in text
+                p_ = pm.get(x)
+                while p_ is not None and not guarded:
+                    if isinstance(p_, ast.If):
+                        conj = p_.test.values if isinstance(p_.test, ast.BoolOp) and isinstance(p_.test.op, ast.And) else [p_.test]
+                        guarded = any(norm(y) in ("self.fields", "len(self.fields)", "len(self.fields) > 0") for y in conj)
+                    p_ = pm.get(p_)
+                rep.check(guarded, rid, f"{gen.key}:template {short(x, 50)}", "emitted only for a structure that has fields",
+                          "the generated reader aligns the stream with 'cls.alignment - 1' also for a structure without fields (alignment 0): the compiled "
+                          "reader of an empty aligned structure seeks back to the start of the stream", gen.loc(x))
+    rep.floor(rid, "class-alignment seek sites", n, 2)
+
+
 def run(repo: Repo, rep: Report, tier: str) -> None:
     relative_seek_rule(repo, rep, "C09.R1")
     restore_rule(repo, rep, "C09.R2")
     funnel_rule(repo, rep, "C09.R3")
     offset_base_rule(repo, rep, "C09.R4")
+    from .c04 import struct_rw_fold_rule
+
+    struct_rw_fold_rule(repo, rep, "C09.R5", 3 if tier == "thorough" else 2)
+    zero_alignment_rule(repo, rep, "C09.R6")
+
+
